@@ -495,7 +495,9 @@ class WARCRecorder(object):
         Returns:
             str, None: A string in the form ``type/subtype`` or None.
         '''
-        match = re.match(r'([a-zA-Z0-9-]+/[a-zA-Z0-9-]+)', value)
+        match = re.match(
+            r'''([a-zA-Z0-9!#$%&'*+.^_`|~-]+/[a-zA-Z0-9!#$%&'*+.^_`|~-]+)''',
+            value)
 
         if match:
             return match.group(1)
